@@ -120,8 +120,8 @@ def coq_op(t):
 
 
 def coq_variant(var):
-    return "{| v_atomic := %s; v_guard := %s |}" % ("true" if var["atomic"] else "false",
-                                                  "true" if var["guard"] else "false")
+    return "{| v_atomic := %s; v_guard := %s; v_lock := %s |}" % (
+        "true" if var["atomic"] else "false", "true" if var["guard"] else "false", "true" if var.get("lock", True) else "false")
 
 
 PRELUDE = """
@@ -588,9 +588,13 @@ def run(ctx):
         raise RuntimeError("c16 driver failed on the probes: rc=%s %s %s" % (rc, outs, err[-1500:]))
     atomic = int(outs[0]["steps"][4]["tick"]) != 0            # tick already stamped by the UpdateState that completed ALL_READY
     guard = outs[1]["steps"][0]["res"].get("finished") is False
-    var = {"atomic": atomic, "guard": guard}
-    ctx.log("variant under test:", var)
-    ctx.coverage["variant_under_test"] = var
+    # THE model is the repaired variant (the code as it is now); what the probes exhibit is only logged:
+    # a regression to an older variant shows up below as property failures with the schedule / request
+    # as replay (F10 / F12 / F11 are "fixed" entries and suppress nothing) and as model/code differences
+    var = {"atomic": True, "guard": True, "lock": True}
+    ctx.log("code exhibits: atomic tick = %s, zero-tick guard = %s; model: repaired_code" % (atomic, guard))
+    ctx.coverage["variant_exhibited_by_probes"] = {"atomic": atomic, "guard": guard}
+    ctx.coverage["model_variant"] = "repaired_code"
 
     # ---------------- sched leg ----------------
     cases, dist = gen_cases(ctx)
@@ -701,7 +705,14 @@ def run(ctx):
     strace_info = strace_leg(ctx, binary, cdir, strs, limit, var, disagreements, failures, with_model)
 
     # ---------------- threads leg (F11) ----------------
-    iters = 80 if ctx.quick else 1500
+    serialized = True
+    try:
+        serialized = consts()[0].get("provision_status_tag_writers_serialized", 1) == 1
+    except Exception:
+        pass
+    iters = 250 if ctx.quick else 1500
+    if not serialized:
+        iters = 1500          # the mutex is gone from the source: search harder for the failing race
     rc, outs, err = run_driver(binary, [{"kind": "threads", "iters": iters * 2, "writers": 1}, {"kind": "threads", "iters": iters, "writers": 2}], cdir, timeout=3000)
     f11 = {"ran": rc == 0 and len(outs) == 2}
     if f11["ran"]:
@@ -711,7 +722,7 @@ def run(ctx):
                              "why": "a reader saw status.tag with content that is not a complete status text while ONE writer was running (%s)" % outs[0].get("example")})
         if outs[1].get("anomalies", 0) > 0:
             failures.append({"case": {"kind": "threads", "writers": 2, "iters": iters}, "kind": "tag-overlap", "impl": outs[1],
-                             "why": "with two concurrent writers a reader saw status.tag %s (%d of %d reads)" % (outs[1].get("example"), outs[1]["anomalies"], outs[1]["reads"])})
+                             "why": "with two concurrent write_provision_state (provision_timeup on two worker threads) a reader saw status.tag %s, which no writer wrote (%d of %d reads); replay: c16 driver scenario {\"kind\":\"threads\",\"iters\":%d,\"writers\":2}" % (outs[1].get("example"), outs[1]["anomalies"], outs[1]["reads"], iters)})
     ctx.coverage["f11_threads"] = f11
 
     # ---------------- coverage / verdict ----------------
